@@ -35,7 +35,9 @@ TRUSTED = [
     "Coq 8.16.1 kernel (coqc; vm_compute in the _refuted witness and the non-vacuity Examples); no axioms",
     "hand-written model of index.rs / index/bang_operator.rs / symbol_map/typ.rs / handlers/diagnostics.rs in "
     "coq/model/{Scope,BangOps,Indexer}.v, tied to the code by the correspondence run of this check "
-    "(diagnostics as (file, range, message class) multisets on well-formed programs and on every mutant)",
+    "(diagnostics as (file, range, message class) multisets on well-formed programs and on every mutant) AND, for Core programs, by "
+    "translation + proof: the indexer functions of IndexerSource, all bang operators, scope.rs, context.rs (entry below); "
+    "symbol_map/typ.rs (coq/model/Typ.v), handlers/diagnostics.rs and the accessor table remain trusted tables",
     "parse errors (C04's subject) reach the model as ranges: those of the MODEL parser (bridge unit), required equal "
     "(range and message) to those of the real parser on every workspace of the run",
     "message-class table lib/scopelib.py MSG_CLASSES (message text -> class)",
@@ -45,7 +47,7 @@ TRUSTED = [
     "programs and every mutant), to be character for character what the observer harness/src/bin/coreast.rs reads off "
     "the REAL parse tree through the real typed accessors (a difference or a bridge unit that does not build is a "
     "broken tie): coreast.rs is a cross-check, not part of the trusted base for Core programs; trusted instead: the "
-    "translators tools/translate/{t_tokens,t_lextables,t_unicode,t_lexer,t_grammar,t_ast}.py (re-run by this check; "
+    "translators tools/translate/{t_tokens,t_lextables,t_unicode,t_lexer,t_grammar,t_grammarcert,t_ast}.py (re-run by this check; "
     "tied to the code by C01/C02/C04/C15), the hand models of the 8 hand-written ast.rs methods in AstToCore.v, "
     "coq/extract/bridge_driver.ml",
     "observer harness/src/bin/idedump.rs, Coq extraction (ExtrOcamlBasic only), OCaml driver coq/extract/scope_driver.ml",
